@@ -97,7 +97,9 @@ func (this *NodesManager) tryJoin(ctx context.Context, address string) error {
 		if err != nil {
 			return err
 		}
-		this.clusterConn.AddNode(node.GetId(), node.GetAddress())
+		// Where to reach the members, not who is one: the contacted node's list may be
+		// out of date (it may even have been removed itself). Membership comes from the log.
+		this.clusterConn.AddNodeAddressHint(node.GetId(), node.GetAddress())
 	}
 	return nil
 }
@@ -115,6 +117,6 @@ func (this *NodesManager) learnNodes(ctx context.Context, client pb.NodesManager
 		if err != nil {
 			return err
 		}
-		this.clusterConn.AddNode(node.GetId(), node.GetAddress())
+		this.clusterConn.AddNodeAddressHint(node.GetId(), node.GetAddress())
 	}
 }
